@@ -48,6 +48,12 @@ pub fn world_from(ctx: &mut Ctx, kpd: &KpD, rev_h: Scalar, rev_g: Scalar, rpd: &
 }
 
 /// SHA3-256 with the independent implementation (rust-crypto)
+/// a context for a replay file: in full up to 4 KiB, otherwise its length, SHA3-256 and first 64 bytes
+/// (long contexts are random bytes drawn from the case's PRNG, so the replay regenerates them)
+pub fn ctx_hex(bytes: &[u8]) -> String {
+    if bytes.len() <= 4096 { hex::encode(bytes) } else { format!("<{} bytes, sha3-256 {}, starting {}>", bytes.len(), hex::encode(sha3_256(bytes)), hex::encode(&bytes[..64])) }
+}
+
 pub fn sha3_256(bytes: &[u8]) -> [u8; 32] {
     let mut h = Sha3::sha3_256();
     h.input(bytes);
@@ -203,7 +209,7 @@ impl Agreed {
     }
     /// the same agreed values under a long context (lengths around the buffer sizes a streaming hasher might use)
     pub fn with_long_context(mut self, ctx: &mut Ctx) -> Agreed {
-        let n = [4096usize, 8191, 8192, 8193, 10000, 16384, 16385, 65537][ctx.prng.gen_range(0..8)];
+        let n = [4096usize, 8191, 8192, 8193, 10000, 16384, 16385, 65537, 1 << 20, (1 << 20) + 1, (2 << 20) + 5][ctx.prng.gen_range(0..11)];
         self.ctx_bytes = (0..n).map(|_| ctx.prng.gen()).collect();
         self
     }
@@ -394,7 +400,7 @@ pub fn initialize_check(ctx: &mut Ctx, w: &World, a: &Agreed, d: &EstD, expect: 
         if expect == Some(true) {
             ctx.violation(
                 &format!("initialize returned None on {} (without even deriving a challenge), expected Some", what),
-                json!({"class": what, "agreed": {"cid": hex_s(&a.cid_s), "cb": a.cb, "mb": a.mb, "context": hex::encode(&a.ctx_bytes)}, "proof_bytes": hex::encode(d.bytes(&book)), "pk": pk_args(&w.kpd.pk)}),
+                json!({"class": what, "agreed": {"cid": hex_s(&a.cid_s), "cb": a.cb, "mb": a.mb, "context": crate::abacus::ctx_hex(&a.ctx_bytes)}, "proof_bytes": hex::encode(d.bytes(&book)), "pk": pk_args(&w.kpd.pk)}),
             );
         }
         return None;
@@ -418,14 +424,14 @@ pub fn initialize_check(ctx: &mut Ctx, w: &World, a: &Agreed, d: &EstD, expect: 
         // the model's acceptance predicate is the one the soundness theorems are about: a proof the real verifier
         // accepts although the model rejects it is a concrete failing input
         ctx.violation(&format!("initialize accepts an establish proof ({}) that the model's acceptance predicate rejects", what),
-            json!({"class": format!("accepted-although-the-model-rejects:{}", what), "agreed": {"cid": hex_s(&a.cid_s), "cb": a.cb, "mb": a.mb, "context": hex::encode(&a.ctx_bytes)}, "proof_bytes": hex::encode(d.bytes(&book)), "pk": pk_args(&w.kpd.pk)}));
+            json!({"class": format!("accepted-although-the-model-rejects:{}", what), "agreed": {"cid": hex_s(&a.cid_s), "cb": a.cb, "mb": a.mb, "context": crate::abacus::ctx_hex(&a.ctx_bytes)}, "proof_bytes": hex::encode(d.bytes(&book)), "pk": pk_args(&w.kpd.pk)}));
     }
     ctx.count(&format!("initialize:{}:{}", what, out.is_some()));
     if let Some(e) = expect {
         if out.is_some() != e {
             ctx.violation(
                 &format!("initialize returned {} on {}, expected {}", if out.is_some() { "Some" } else { "None" }, what, if e { "Some" } else { "None" }),
-                json!({"class": what, "agreed": {"cid": hex_s(&a.cid_s), "cb": a.cb, "mb": a.mb, "context": hex::encode(&a.ctx_bytes)}, "proof_bytes": hex::encode(d.bytes(&book)), "pk": pk_args(&w.kpd.pk)}),
+                json!({"class": what, "agreed": {"cid": hex_s(&a.cid_s), "cb": a.cb, "mb": a.mb, "context": crate::abacus::ctx_hex(&a.ctx_bytes)}, "proof_bytes": hex::encode(d.bytes(&book)), "pk": pk_args(&w.kpd.pk)}),
             );
         }
     }
